@@ -255,6 +255,26 @@ func BuildMsg(c *Config, h refcodec.Header, tree []atoms.N) *diam.Message {
 	return m
 }
 
+// BuildMsgTopDown: grouped AVPs are created first and filled afterwards (see atoms.N.LibTopDown).
+func BuildMsgTopDown(c *Config, h refcodec.Header, tree []atoms.N) *diam.Message {
+	m := diam.NewMessage(h.Code, h.Flags, h.App, h.HbH, h.E2E, c.A.D.P)
+	m.Header.HopByHopID = h.HbH
+	m.Header.EndToEndID = h.E2E
+	for _, n := range tree {
+		m.AddAVP(n.LibTopDown())
+	}
+	return m
+}
+
+func hasGroup(tree []atoms.N) bool {
+	for _, n := range tree {
+		if n.V.K == atoms.KGroup {
+			return true
+		}
+	}
+	return false
+}
+
 func wantFlags(n atoms.N) uint8 {
 	if n.Vendor != 0 {
 		return n.Flags | 0x80
